@@ -8,7 +8,7 @@ static const uint64_t DUR[] = { 0, 1, 999999, 1 * MS, 50 * MS, 2147483647ULL * M
 #define NDUR 11
 #define MAXT 8
 static qb_loop_t *L;
-static int part, depth, max_timers;
+static int part, depth, max_timers, self_del;
 static struct tm_s { int live, fired, deleted, prio, seq; uint64_t added, dur, expiry, fired_at; qb_loop_timer_handle h; } TM[MAXT];
 static int ntm, fire_seq, jobs_pending, job_ever, stop_in_cb;
 static uint64_t stop_at;
@@ -40,6 +40,29 @@ static void timer_cb(void *data)
 	if (stop_in_cb && t->prio == 2) { vp_log("  (callback calls qb_loop_stop)"); qb_loop_stop(L); }
 }
 static void job_cb(void *d) { (void)d; jobs_pending--; }
+
+/* a descriptor whose callback removes its own registration while it is being dispatched: the loop's count of work that
+   is still queued must come out right afterwards, or it sleeps although an expired timer is waiting on a level that
+   was not served in that iteration */
+#include <sys/eventfd.h>
+static int self_fd = -1;
+static int32_t self_del_cb(int32_t fd, int32_t revents, void *data)
+{
+	int32_t r = qb_loop_poll_del(L, fd);
+	(void)revents; (void)data;
+	vp_log("  t=%llu: descriptor callback removes its own registration = %d", (unsigned long long)vnow, r);
+	jobs_pending--;
+	return 0;
+}
+static void add_self_deleting_fd(void)
+{
+	uint64_t one = 1;
+	if (self_fd < 0) self_fd = eventfd(0, EFD_NONBLOCK);
+	if (write(self_fd, &one, sizeof one) < 0) vp_broken("eventfd write");
+	if (qb_loop_poll_add(L, QB_LOOP_MED, self_fd, POLLIN, NULL, self_del_cb) != 0) vp_broken("poll_add of an eventfd failed");
+	jobs_pending++;
+	vp_log("a readable descriptor is watched at MED; its callback will remove it");
+}
 
 static int pending_count(void) { int i, n = 0; for (i = 0; i < ntm; i++) n += TM[i].live && !TM[i].fired && !TM[i].deleted; return n; }
 static uint64_t earliest(void) { int i; uint64_t e = ~0ULL; for (i = 0; i < ntm; i++) if (TM[i].live && !TM[i].fired && !TM[i].deleted && TM[i].expiry < e) e = TM[i].expiry; return e; }
@@ -106,6 +129,7 @@ static void run(void)
 	L = qb_loop_create();
 	if (part == 0) {
 		int n = 1 + vp_choose(max_timers, "number of timers"), withjob = vp_choose(2, "job queued too");
+		if (self_del && vp_choose(2, "self-removing descriptor")) add_self_deleting_fd();
 		for (i = 0; i < n; i++) {
 			uint64_t d = DUR[vp_choose(NDUR, "duration")];
 			int prio = n > 1 ? vp_choose(2, "priority") * 2 : 1;       /* LOW or HIGH; MED when alone */
@@ -144,6 +168,7 @@ static void run(void)
 		int step;
 		horizon_iters = 400;
 		stop_in_cb = vp_choose(2, "HIGH timer callbacks stop the loop");
+		if (self_del && vp_choose(2, "self-removing descriptor")) add_self_deleting_fd();
 		for (step = 0; step < depth; step++) {
 			int live[MAXT], nl = 0, c;
 			for (i = 0; i < ntm; i++) if (TM[i].live && !TM[i].fired && !TM[i].deleted) live[nl++] = i;
@@ -181,6 +206,7 @@ static void init(void)
 	part = (int)vp_param("heap_histories", 0, 0);
 	max_timers = (int)vp_param("max_timers", 2, 3);
 	depth = (int)vp_param("depth", 6, 7);
+	self_del = (int)vp_param("self_removing_descriptor", 1, 1);
 }
 
 int main(int argc, char **argv)
